@@ -74,7 +74,7 @@ theorem Base.of_frame {E : Env} {P : State → Prop} (hM : IgnoresMembership P) 
     (startProbe : ∀ m, Pres P (modS fun s => { s with probe := s.probe.start m }))
     (modCtl : ∀ f, CtlKeep f → Pres P (modS f))
     (modCustom : ∀ f, CustomOnly f → Pres P (modS f)) : Base E P (fun _ => True) where
-  okDown := fun _ _ => trivial
+  okDown0 := fun _ => trivial
   membersApply := fun u _ => Pres.of_onlyMembership hM (membersApply_only u)
   membersApplyExistingIf := fun u cond _ => Pres.of_onlyMembership hM (membersApplyExistingIf_only u cond)
   membersNext := ⟨fun c hc => by
@@ -86,7 +86,7 @@ theorem Base.of_frame {E : Env} {P : State → Prop} (hM : IgnoresMembership P) 
   startProbe := fun m _ => startProbe m
   removeDown := fun id => Pres.modS_of (fun s hs => hM _ _ (by simp only [OnlyMembership]) hs)
   sendMessage := Pres.sendMessage E hB
-  addUpdate := fun m => by
+  addUpdate := fun m _ => by
     unfold Foca.addUpdate
     exact Pres.modS_of (fun s hs => hB _ _ (by simp only [OnlyBacklogs]) hs)
   modCtl := modCtl
